@@ -1,7 +1,7 @@
 HARNESSES = {
     'PerCall': dict(split={'call': 25, 'hires': 2}, quick=dict(params={'hotall': 0}), thorough=dict(params={'hotall': 1}, job_timeout_s=3000)),
     'SetNRegCall': dict(split={'hires': 2, 'group': 16}),
-    'Runs': dict(split={'verb': 18}),
+    'Runs': dict(split={'verb': 18}, opts=dict(max_steps=6000000)),
     'Mixed': dict(split={'verb': 18}, quick=dict(params={'K': 2}), thorough=dict(params={'K': 3})),
     'Transcode': dict(split={'op': 16}, quick=dict(params={'L': 2}), thorough=dict(params={'L': 3}, job_timeout_s=3000)),
     'MidPath': dict(split={'verb': 12}),
@@ -10,7 +10,7 @@ HARNESSES = {
 BOUNDS = {
     'PerCall': 'every Destination method x {low, high} resolution; one float operand fully arbitrary (quick: first or last position, thorough: any position), the other operands distinct concrete short-form values; adj, incr, flags, colour of every kind symbolic',
     'SetNRegCall': dict(split={'hires': 2, 'group': 16}),
-    'Runs': 'same-verb runs of length 1,2,15,16,17,31,32,33,40 for every drawing verb (concrete short-form numbers)',
+    'Runs': 'same-verb runs of length 1,2,15,16,17,31,32,33,40,255,256,257,300 for every drawing verb (concrete short-form numbers)',
     'Mixed': 'sequences of K freely chosen drawing verbs (quick 2, thorough 3)',
     'Transcode': 'magic, no metadata, L arbitrary instruction bytes (quick 2, thorough 3) through decode -> Encoder(high resolution) -> decode',
     'MidPath': 'streams ending inside a path after a run of 1..2 operations of every run-forming verb',
